@@ -71,10 +71,13 @@ From SDC Require Import Mdib.Consumer_Descr_Proofs.
    Well-formedness:
      pm_ok m    - provider lookups enumerate what they hold; no state / context state without descriptor
      cdom_ok c  - the same for the consumer lookups
-     dtx_ok m t - shape of a descriptor transaction body (dshape, guaranteed by the API, see
-                  C01_descr_body_wellformed) and separation (dsep): the parent of a deleted descriptor exists and
-                  is not deleted by the same transaction, an updated descriptor is not deleted by it, nothing is
-                  created below a descriptor it deletes. *)
+     tree_ok m  - every parent handle of the provider MDIB refers to an existing descriptor
+     dtx_ok m t - the shape of a descriptor transaction body (dshape, guaranteed by the API calls),
+                  subtree_conflict m t = false (the check process_transaction makes before it changes anything:
+                  nothing is created or updated inside a subtree that the transaction removes; a conflicting
+                  transaction is refused with ApiUsageError), and the residue dpar_res m t: the parent handle of a
+                  removed descriptor is not a descriptor that the same transaction creates - it follows from
+                  tree_ok m (C01_descr_body_wellformed).  Removals may be nested in any order. *)
 Theorem C01_mirror_step_descriptor : forall m t, pm_ok m -> dtx_ok m t -> forall c,
   t_d t <> [] -> mirrors c m -> cdom_ok c ->
   let m' := commit_descr m t in
@@ -87,7 +90,7 @@ Theorem C01_mirror_step_descriptor : forall m t, pm_ok m -> dtx_ok m t -> forall
 Proof. exact mirror_step_descr. Qed.
 Print Assumptions C01_mirror_step_descriptor.
 
-(* the deleted descriptors are those below a deleted handle *)
+(* the deleted descriptors are those below a removed handle *)
 Theorem C01_descr_deleted_set : forall m t, pm_ok m -> dtx_ok m t -> forall y,
   In y (map fst (tx_deleted m t)) <->
   descrs m y <> None /\ exists r, In (r, None) (t_d t) /\ reachR (descrs m) y r.
@@ -104,22 +107,31 @@ Theorem C01_mirror_step_descriptor_all : forall m t c,
 Proof. exact mirror_step_descr_all. Qed.
 Print Assumptions C01_mirror_step_descriptor_all.
 
-(* every accepted descriptor transaction body (add / update / delete descriptors, get_state) has the shape; the
-   separation of deletions is the application's obligation *)
+(* every accepted body of add / update / remove descriptor and get_state calls that passes the conflict check of
+   process_transaction is well-formed on an MDIB whose parent handles exist; no obligation on the calls is left *)
 Theorem C01_descr_body_wellformed : forall m acts t,
-  descr_only acts -> body 6 m empty_tx acts = Ok t -> dsep m t -> dtx_ok m t.
+  descr_only acts -> body 6 m empty_tx acts = Ok t -> subtree_conflict m t = false -> tree_ok m -> dtx_ok m t.
 Proof. exact descr_body_wellformed. Qed.
 Print Assumptions C01_descr_body_wellformed.
 
+(* tree_ok is kept by a commit that creates no orphan (dpar_ok: the parent of a created descriptor exists or is
+   given by the same transaction - the library's own lookup of the source MDS enforces this for every descriptor
+   whose SourceMds the application has not preset) *)
+Theorem C01_descr_tree_preserved : forall m t, pm_ok m -> dtx_ok m t ->
+  t_d t <> [] -> tree_ok m -> dpar_ok m t -> tree_ok (commit_descr m t).
+Proof. exact commit_descr_tree_ok. Qed.
+Print Assumptions C01_descr_tree_preserved.
+
 (* dtx_ok can be evaluated: boolean twin *)
-Theorem C01_dtx_okb_sound : forall m t,
-  (forall y, descrs m y <> None -> In y (ddom m)) -> dtx_okb m t = true -> dtx_ok m t.
+Theorem C01_dtx_okb_sound : forall m t, dtx_okb m t = true -> dtx_ok m t.
 Proof. exact dtx_okb_sound. Qed.
 Print Assumptions C01_dtx_okb_sound.
 
 (* every finite history of state transactions (any kind), context transactions without deletions through the
-   entity interface, and descriptor transactions that keep their deletions apart - rejected calls, aborts and empty
-   transactions included - with the reports processed in emission order: mirror after every prefix *)
+   entity interface, and descriptor transactions of ANY add / update / remove / get_state calls that create no
+   orphan - rejected calls, aborts, empty transactions, nested removals and transactions refused by the conflict
+   check included - with the reports processed in emission order: mirror after every prefix
+   (sys_ok = mirrors /\ cdom_ok /\ pm_ok /\ tree_ok /\ sequence and instance id) *)
 Theorem C01_mirror_history_all : forall seq inst hist m c,
   hist_ok m hist -> sys_ok seq inst m c ->
   let '(m', c') := fold_left (pc_step3 seq inst) hist (m, c) in
@@ -138,34 +150,46 @@ Example C01_descr_nonvacuous :
                             (3, mkDescr (Some 1) K_METRIC 0 12); (5, mkDescr (Some 1) K_CTX 0 13);
                             (6, mkDescr (Some 3) K_ALERT 0 14)])
                   (map fst [(50, mkCState 5 0 2 2 (Some 1) None 30)]) in
-  (* parent 1 with children 2, 3 (which has child 6) and context descriptor 5: add 4 below 1, update 2 (and its
-     state), delete 3 (with 6), update context descriptor 5; then a metric transaction on the new descriptor and a
-     context transaction *)
-  let acts := [ADAdd 4 (Some 1) K_METRIC 15 25; ADUpd 2 16; ADState 2 26; ADDel 3; ADUpd 5 17] in
-  let hist := [(6, @None nat, acts); (K_METRIC, @None nat, [AState 4 42]); (5, @None nat, [ACtxGet 50 31 None])] in
+  (* parent 1 with children 2, 3 (which has child 6) and context descriptor 5.
+     1st transaction: add 4 below 1, update 2 (and its state), remove 6 AND its parent 3 (nested removal), update
+     context descriptor 5; then a metric transaction on the new descriptor, a context transaction, and a
+     transaction that removes 2 and creates 7 below it - refused by the conflict check *)
+  let acts := [ADAdd 4 (Some 1) K_METRIC 15 25; ADUpd 2 16; ADState 2 26; ADDel 6; ADDel 3; ADUpd 5 17] in
+  let bad := [ADDel 2; ADAdd 7 (Some 2) K_ALERT 18 28] in
+  let hist := [(6, @None nat, acts); (K_METRIC, @None nat, [AState 4 42]); (5, @None nat, [ACtxGet 50 31 None]);
+               (6, @None nat, bad)] in
   sys_ok 1 1 m (mirror_of m 1 1) /\ hist_ok m hist /\
   (exists t, body 6 m empty_tx acts = Ok t /\ dtx_okb m t = true /\ t_d t <> [] /\
-     map fst (tx_updated m t) = [1; 2; 5] /\ map fst (tx_created m t) = [4] /\ map fst (tx_deleted m t) = [3; 6]) /\
+     map fst (tx_updated m t) = [1; 2; 5] /\ map fst (tx_created m t) = [4] /\ map fst (tx_deleted m t) = [6; 3]) /\
+  (exists t, body 6 (exec m (firstn 3 hist)) empty_tx bad = Ok t /\ subtree_conflict (exec m (firstn 3 hist)) t = true /\
+     snd (transaction 6 None bad (exec m (firstn 3 hist))) = 3) /\
   let '(m', c') := fold_left (pc_step3 1 1) hist (m, mirror_of m 1 1) in
   ver m' = 10 /\ cm_ver c' = 10 /\ descrs m' 3 = None /\ cm_descrs c' 3 = None /\ cm_states c' 6 = None /\
   cm_descrs c' 1 = Some (mkDescr None K_COMP 1 10) /\ cm_states c' 2 = Some (mkState 1 4 26) /\
+  cm_descrs c' 7 = None /\
   cm_states c' 4 = Some (mkState 0 1 42) /\ cm_cstates c' 50 = Some (mkCState 5 1 4 2 (Some 1) None 31).
 Proof.
   cbv zeta.
   match goal with |- sys_ok _ _ ?m0 _ /\ _ => set (m := m0) end.
   assert (Hpm : pm_ok m) by (apply pm_ok_alists; reflexivity).
-  split; [|split; [|split]].
-  - split; [repeat split|]. split; [|split; [exact Hpm|split; reflexivity]].
-    split; [exact (pm_dd _ Hpm)|exact (pm_cd _ Hpm)].
-  - split; [|split; [|split; [|exact I]]].
+  split; [|split; [|split; [|split]]].
+  - split; [repeat split|]. split; [|split; [exact Hpm|split; [|split; reflexivity]]].
+    + split; [exact (pm_dd _ Hpm)|exact (pm_cd _ Hpm)].
+    + intros h d p Eh Ep. cbn [descrs m] in Eh |- *. apply alist_get_some_in in Eh. cbn in Eh.
+      repeat (destruct Eh as [Eh|Eh]; [injection Eh as <- <-; cbn in Ep; try discriminate; injection Ep as <-; vm_compute; discriminate|]).
+      contradiction.
+  - split; [|split; [|split; [|split; [|exact I]]]].
     + right. right. split; [reflexivity|]. split.
       * intros a Ha. cbn in Ha. repeat (destruct Ha as [<-|Ha]; [exact I|]). contradiction.
-      * intros t B. vm_compute in B. injection B as <-.
-        apply (dtx_ok_elim m). apply dtx_okb_sound; [exact (pm_dd _ Hpm)|vm_compute; reflexivity].
+      * intros t B. vm_compute in B. injection B as <-. apply dpar_okb_sound. vm_compute. reflexivity.
     + left. split; [unfold K_METRIC; lia|]. intros a [<-|[]]. now exists 4, 42.
     + right. left. split; [reflexivity|]. split; [intros a [<-|[]]; exact I|]. split.
       * intros dh h assoc p [Ha|[]]. discriminate.
       * intros t B. vm_compute in B. injection B as <-. intros h [Hi|[]]. discriminate.
+    + right. right. split; [reflexivity|]. split.
+      * intros a Ha. cbn in Ha. repeat (destruct Ha as [<-|Ha]; [exact I|]). contradiction.
+      * intros t B. vm_compute in B. injection B as <-. apply dpar_okb_sound. vm_compute. reflexivity.
   - eexists. split; [vm_compute; reflexivity|]. vm_compute. repeat split; discriminate.
+  - eexists. split; [vm_compute; reflexivity|]. vm_compute. split; reflexivity.
   - vm_compute. repeat split.
 Qed.
